@@ -591,8 +591,10 @@ Theorem uint_valid_spec : forall x,
   valid TUint x = true ->
   forall v m, uint_leaf x = Some (v, m) -> be_value v < be_value m.
 Proof.
-  intros x H. unfold valid in H. cbn [rules_of] in H. apply leaf_rules_41 in H.
-  exact (leaves_ok_here 39 x H).
+  intros x H v m E.
+  assert (H41 : fst (leaves_ok 40 x) = true) by (apply leaf_rules_41; exact H).
+  clear H. revert H41. generalize 39%nat at 0. intros _.
+  change 40%nat with (S 39). intros H41. exact (leaves_ok_here 39 x H41 v m E).
 Qed.
 
 (* the same for types the model knows only generically: a Uint anywhere directly below the top *)
